@@ -33,6 +33,11 @@ BirthdayOK == (Rec.op = "birthday" /\ Done) =>
     /\ Rec.collisions <= 200
     /\ Rec.collisions * 2 * Rec.space <= 5 * Rec.M * (Rec.M - 1)
     /\ Has("outputs") => \A j \in 1..Len(Rec.outputs) : ValidMap(DecM(Rec.outputs[j]))
+\* very wide maps: inside ONE sampled map the 2N rows are images of the generators, each a uniform non-identity string, so
+\* on any fixed qubit each letter appears in about a quarter of the rows (8 sigma of the binomial(2N, 1/4))
+RowMarginalOK == (Rec.op = "rowmarginal" /\ Done) =>
+    \A j \in 1..Len(Rec.cnt) : \A lt \in 1..4 :
+        LET c == Rec.cnt[j][lt]  R == 2 * Rec.n IN (4 * c - R) * (4 * c - R) <= 192 * R
 \* five qubits: |Sp(10,2)| = 2.5 * 10^16 symplectic tables, so among 200 000 uniform draws a repeated table has
 \* probability below 10^-6: none may occur (a sampler that can only produce a few billion tables repeats itself)
 BigBirthdayOK == (Rec.op = "bigbirthday" /\ Done) => Rec.n >= 5 /\ Rec.M >= 100000 /\ Rec.M <= 400000 /\ Rec.collisions = 0
